@@ -146,11 +146,8 @@ def generate(run_seed: int, tier: str = 'quick', stream: str = 'seq') -> dict:
     fmts_allowed = rng.pick([['lammps', 'vasp', 'gromacs'], ['lammps', 'vasp', 'gromacs'], ['vasp'], ['lammps'], ['gromacs'], ['vasp', 'lammps']])
     datasets = [worlds.gen_dataset_params(rng, fmt=rng.pick(fmts_allowed), small=rng.chance(0.3)) for _ in range(n_ds)]
     # per-dataset subset of argsets in play (few, to provoke key collisions)
-    argsub = []
-    for d in datasets:
-        n_all = len(worlds.ARGSETS[d['fmt']])
-        k = min(n_all, rng.randint(1, 4))
-        argsub.append(sorted(rng.sample(range(n_all), k)))
+    argsets = [worlds.gen_argsets(rng, d['fmt']) for d in datasets]
+    argsub = [list(range(len(a))) for a in argsets]
     wf = [] if fault_free else [k for k in WRITE_FAULTS if rng.chance(0.7)]
     rf = [] if fault_free else [k for k in READ_FAULTS if rng.chance(0.6)]
     dk = [] if fault_free else [k for k in DAMAGE_KINDS if rng.chance(0.7)]
@@ -240,7 +237,7 @@ def generate(run_seed: int, tier: str = 'quick', stream: str = 'seq') -> dict:
         'stream': stream,
         'config': {'fault_free': fault_free, 'write_faults': wf, 'read_faults': rf, 'damage_kinds': dk, 'p_fault': p_fault,
                    'paths_as': rng.pick(['str', 'str', 'Path'])},
-        'world': {'datasets': datasets},
+        'world': {'datasets': datasets, 'argsets': argsets},
         'ops': ops,
     }
 
@@ -276,11 +273,19 @@ class Run:
             # harness self-check of the file writers: ground truth must be what the parser sees
         self.trace.log(ev='world', datasets=[{k: v for k, v in d.items()} for d in self.datasets])
 
+    def n_argsets(self, ds: int) -> int:
+        a = self.sc['world'].get('argsets')
+        return len(a[ds]) if a else len(worlds.ARGSETS[self.datasets[ds]['fmt']])
+
+    def argset(self, ds: int, idx: int) -> dict:
+        a = self.sc['world'].get('argsets')
+        return a[ds][idx] if a else worlds.ARGSETS[self.datasets[ds]['fmt']][idx]
+
     def _call_loader(self, ds: int, args_idx: int, dirpath: str, cache):
         from gemdat import Trajectory
 
         d = self.datasets[ds]
-        argset = worlds.ARGSETS[d['fmt']][args_idx]
+        argset = self.argset(ds, args_idx)
         name, kw = worlds.loader_call(d['fmt'], dirpath, argset, cache)
         if self.sc.get('config', {}).get('paths_as') == 'Path':
             from pathlib import Path
@@ -377,8 +382,7 @@ class Run:
         key = {'ds': op['ds'] % len(self.datasets), 'args': op['args'], 'cache': op['cache']}
         ds = key['ds']
         d = self.datasets[ds]
-        if key['args'] >= len(worlds.ARGSETS[d['fmt']]):
-            key['args'] %= len(worlds.ARGSETS[d['fmt']])
+        key['args'] %= self.n_argsets(ds)
         ref = self.ref(ds, key['args'])
         entry = self.key_entry(key)
         if key_str(key) not in self.touched:
@@ -471,7 +475,7 @@ class Run:
         if ref['kind'] == 'exc':
             self.violation(
                 'stale_cache_returned',
-                f"{key_str(key)} ({d['fmt']}, args {worlds.ARGSETS[d['fmt']][key['args']]}): returned a trajectory from "
+                f"{key_str(key)} ({d['fmt']}, args {self.argset(ds, key['args'])}): returned a trajectory from "
                 f"{'cache' if not src_opened else 'parse'} but parsing the sources with these arguments raises {ref['type']}",
                 {**sig, 'args': key['args']},
             )
@@ -481,7 +485,7 @@ class Run:
         if diff:
             self.violation(
                 'wrong_trajectory',
-                f"{key_str(key)} ({d['fmt']}, args {worlds.ARGSETS[d['fmt']][key['args']]}): result differs from a clean parse: {diff} "
+                f"{key_str(key)} ({d['fmt']}, args {self.argset(ds, key['args'])}): result differs from a clean parse: {diff} "
                 f"(served from {'cache' if not src_opened else 'sources'})",
                 {**sig, 'args': key['args']},
             )
@@ -664,24 +668,32 @@ class Run:
         self.trace.log(ev='SAVE', step=self.step, slot=slot, derive=dv, outcome=outcome, fault=armed if fired else None, rec=rec_fp(rec))
         self.stats.state('save', dv, armed['kind'] if fired else 'none', outcome)
         if outcome == 'crash':
-            self.saves[slot] = {'path': path, 'state': 'unknown', 'rec': rec}
+            self.saves[slot] = self.unknown_save(slot, path, rec)
             self.pool.clear()
             return
         self.oracle_checks += 1
         if outcome == 'exc':
             if fired and isinstance(exc, OSError):
-                self.saves[slot] = {'path': path, 'state': 'unknown', 'rec': rec}
+                self.saves[slot] = self.unknown_save(slot, path, rec)
                 return
             self.violation('save_raised', f'to_cache raised {type(exc).__name__}: {exc}', {'exc': type(exc).__name__})
         dd = rec_diff(rec, traj_record(obj, raw=True), tol=0)
         if dd:
             self.violation('save_mutated_object', f'to_cache changed the trajectory it saved: {dd}', {})
         if fired:
-            self.saves[slot] = {'path': path, 'state': 'unknown', 'rec': rec}
+            self.saves[slot] = self.unknown_save(slot, path, rec)
             return
         self.saves[slot] = {'path': path, 'state': 'complete', 'rec': rec}
         # R1 immediately: what is on disk must be the object
         self.check_saved(slot, via_seam=False)
+
+    def unknown_save(self, slot, path, rec):
+        """After a faulted save the file may hold the new object, or (atomic implementations) what it held before."""
+        old = self.saves.get(slot)
+        alts = []
+        if old and old['state'] in ('complete', 'unknown'):
+            alts = [old['rec']] + list(old.get('alts', []))
+        return {'path': path, 'state': 'unknown', 'rec': rec, 'alts': alts[:4]}
 
     def check_saved(self, slot, via_seam: bool):
         e = self.saves[slot]
@@ -729,6 +741,11 @@ class Run:
             return
         # it returned: it must be the saved object, never wrong data
         dd = rec_diff(e['rec'], traj_record(obj, raw=True), tol=0) if hasattr(obj, 'coords') else f'type {type(obj).__name__}'
+        if dd and e['state'] == 'unknown' and hasattr(obj, 'coords'):
+            # an interrupted save is not acknowledged: the old content is as good as the new one, garbage is not
+            if any(rec_diff(a, traj_record(obj, raw=True), tol=0) is None for a in e.get('alts', [])):
+                self.stats.probe('old_version_after_failed_save')
+                dd = None
         if dd:
             self.violation('roundtrip_mismatch', f"from_cache returned a different trajectory than was saved ({dd}; file state {e['state']})", {})
         if fired and armed['kind'] == 'vanish':
@@ -929,6 +946,8 @@ def simplify(sc: dict):
                 c = copy.deepcopy(sc)
                 k = next(iter(used)) % len(ds) if used else 0
                 c['world']['datasets'] = [ds[k]]
+                if c['world'].get('argsets'):
+                    c['world']['argsets'] = [c['world']['argsets'][k]]
                 for o in c['ops']:
                     if 'ds' in o:
                         o['ds'] = 0
